@@ -25,7 +25,7 @@ RULE = ('cases: seeded histories of 20-50 ops over a hierarchy built per case: A
         'an explicit tag; distinct by (hierarchy shape, op trace).')
 ASSUMPTIONS = ['Agent/Environment/world classes are process-global: every history restores them through the public API in a finally block',
                'tags are plain ints']
-FLOORS = {'quick': {'classes_from_a_shared_namespace_dict': 702, 'instances_numpy_tag': 827, 'class_observations': 100000, 'class_attach': 2000, 'class_detach': 400, 'rejected_duplicate_attach': 200,
+FLOORS = {'quick': {'constructions_that_fail': 351, 'classes_from_a_shared_namespace_dict': 702, 'instances_numpy_tag': 827, 'class_observations': 100000, 'class_attach': 2000, 'class_detach': 400, 'rejected_duplicate_attach': 200,
                     'rejected_absent_detach': 500, 'default_tag_changes': 2000, 'instances_default_tag': 1832,
                     'instances_default_tag_nonzero': 298, 'instances_explicit_tag': 800, 'instances_explicit_zero_vs_default': 100,
                     'environment_instances': 500, 'instances_added_to_environment': 1000, 'ops_on_library_classes': 2000, 'mid_history_classes': 500, 'same_named_classes': 300, 'big_many_classes': 2, 'big_many_class_components': 2,
@@ -79,7 +79,16 @@ def case_history(ctx, case):
     trace = []
     flags = set()
     counter = [0]
+    picky = set()
     shared_body = {'describe': lambda self: 'generated', 'kind': 'generated'}
+    arm = [None]          # ('before' | 'after', exception class): while set, constructors of the 'picky' classes raise
+
+    def picky_init(self, *a, **kw):
+        if arm[0] and arm[0][0] == 'before':
+            raise arm[0][1]('validation fails before the agent is initialised')
+        super(type(self), self).__init__(*a, **kw) if False else core.Agent.__init__(self, *a, **kw)
+        if arm[0] and arm[0][0] == 'after':
+            raise arm[0][1]('validation fails after the agent was initialised')
 
     def new_class():
         base = rng.choice(classes)
@@ -89,7 +98,10 @@ def case_history(ctx, case):
             # a second, distinct class with the very same name (same factory called twice, a re-run cell, one Animal class per model)
             name = rng.choice(classes[len(lib):]).__name__
             ctx.count('same_named_classes')
-        if rng.random() < 0.35:
+        if rng.random() < 0.25 and not issubclass(base, core.Environment):
+            K = type(name, (base,), {'__init__': picky_init})       # a user class that validates its arguments in its constructor
+            picky.add(K)
+        elif rng.random() < 0.35:
             K = type(name, (base,), shared_body)        # a family of generated classes built from ONE namespace dict (shared method bodies)
             ctx.count('classes_from_a_shared_namespace_dict')
         else:
@@ -205,6 +217,25 @@ def case_history(ctx, case):
                 if issubclass(K, core.Environment):
                     ctx.count('environment_instances')
                 trace.append(('new', K.__name__, tag))
+            elif x < 0.89:
+                # a construction that FAILS (the class validates its arguments and raises - an ordinary error or a KeyboardInterrupt-like -
+                # before or after the agent is initialised; or arguments are simply missing): the caller catches it and goes on; no class
+                # default and no later instance is affected by the tag that was asked for
+                from vlib import faults
+                plain = [c for c in classes if not issubclass(c, core.Environment)]
+                K2 = rng.choice([c for c in plain if c in picky] or plain)
+                tagv = rng.choice([5, 7, 9, 11])
+                if K2 in picky and rng.random() < 0.8:
+                    arm[0] = (rng.choice(['before', 'after']), rng.choice([faults.Boom, ValueError, faults.Interrupt, faults.Interrupt]))
+                    try:
+                        _, err = faults.attempt(K2, f'x{len(instances)}', model, tag=tagv) if rng.random() < 0.7 else faults.attempt(K2, f'x{len(instances)}', model, tagv)
+                    finally:
+                        arm[0] = None
+                else:
+                    _, err = faults.attempt(K2, tag=tagv)          # the other arguments are missing
+                check(err is not None, 'harness: the construction was expected to fail')
+                ctx.count('constructions_that_fail')
+                trace.append(('new!', K2.__name__, tagv, type(err).__name__))
             elif x < 0.93 and instances:
                 obj, tag, comps = rng.choice(instances)
                 t = rng.choice(T)
